@@ -62,6 +62,21 @@ Theorem reopen_same : forall es,
 Proof. exact C17_Reopen.reopen_loads_writer_metadata. Qed.
 Print Assumptions reopen_same.
 
+(* The descriptor round trip Document() -> JSON checkpoint encoding -> NewTableFromDocument keeps the file, the sizes
+   and the key range. [json_doc] (Model/SstTable.v) models encoding/json on a TableDocument as the IDENTITY on
+   descriptors: []byte keys are written as base64 and read back byte for byte. That identity is trusted, not proved;
+   the correspondence check sends every descriptor through json.Marshal/json.Unmarshal (code 111). *)
+Theorem reopen_keeps_descriptor : forall t,
+  document (reopen t) = document t /\ t_file (reopen t) = t_file t /\
+  t_start (reopen t) = t_start t /\ t_end (reopen t) = t_end t.
+Proof. exact C17_Reopen.reopen_keeps_descriptor. Qed.
+Print Assumptions reopen_keeps_descriptor.
+
+Theorem reopen_range_is_first_last : forall es,
+  t_start (reopen (write_table es)) = first_key es /\ t_end (reopen (write_table es)) = last_key es.
+Proof. exact C17_Reopen.reopen_range_is_first_last. Qed.
+Print Assumptions reopen_range_is_first_last.
+
 (* ---------- bloom filter ---------- *)
 Theorem bloom_no_false_negative : forall size hashes keys k,
   0 < size -> size + 63 < 4294967296 -> In k keys -> bf_might_have (bf_add_all (bf_new size hashes) keys) k = true.
